@@ -67,6 +67,7 @@ def gen(rng):
 
 def run(ctx, model=True):
     STATS.clear()
+    _GEN.sweep_cap = 40 if (ctx.tier == "thorough" or ctx.deep) else 10
     res = E.run_property(ctx, "C04", oracle, gen=gen, quick=160, thorough=4000, model=model)
     for k, v in STATS.items():
         res.count(k, v)
